@@ -55,6 +55,8 @@ def run(rep: Report) -> None:
              "measurand expression of the same method", floor=13)
     rep.rule("R14.3", "no spurious singularity: a division by an operand's measurand must survive in f or in the "
              "simplified sigma^2", floor=4)
+    rep.rule("R14.6", "Measurement.__init__ stores the measurand and abs(uncertainty) (a number being put in the measurand's unit) and nothing else", floor=2)
+    rep.rule("R14.7", "Quantity's binary operators return NotImplemented for a Measurement operand (the reflected Measurement method decides)", floor=4)
     rep.rule("R14.4", "the uncertainty is stored as abs(.) on every path of Measurement.__init__", floor=1)
     rep.rule("R14.5", "inventory: binary dunders that begin with the literal coercion Measurement(other, 0); the behaviour (a plain quantity acts as sigma = 0) is decided by R14.2 on the Quantity arm", armed=False, floor=13)
     for qual, kind in OPS.items():
@@ -135,6 +137,47 @@ def run(rep: Report) -> None:
                                   fi.where(e.node))
             if n == 0:
                 raise AnalysisError(f"{qual}[{arm}]: no return analysed")
+    # R14.6: the constructor keeps what the operators computed
+    from ..quantity_rules import check_plain_ctor
+    check_plain_ctor(rep, prog, "R14.6", "Measurement", {"measurand": ["$p"],
+                                                         "uncertainty": ["abs($p)", "abs(Quantity($p,measurand.unit))"]})
+    # R14.7: with a plain quantity on the LEFT, Quantity's operator must step aside (NotImplemented) so that
+    # Measurement's reflected method - the one R14.2 decides - computes the result
+    mcls = prog.cls("Measurement")
+    m_members = set(mcls.methods) | set(mcls.aliases) | set(mcls.class_attrs)
+
+    def admits_measurement(k: str) -> Optional[str]:
+        """does isinstance(x, k) hold for a Measurement?  nominally, or structurally for a runtime-checkable Protocol"""
+        k = k.split(".")[-1]
+        if k in ("Measurement", "object"):
+            return "it is that class"
+        ci = prog.classes.get(k)
+        if ci is None:
+            return None
+        if any(b.split(".")[-1].split("[")[0] == "Protocol" for b in ci.bases):
+            need = {n for n in list(ci.methods) + list(ci.class_attrs) if not n.startswith("__")}
+            if need and need <= m_members:
+                return f"{k} is a runtime-checkable Protocol whose members {sorted(need)} Measurement has"
+        return None
+    for qop in ("Quantity.__mul__", "Quantity.__truediv__", "Quantity.__add__", "Quantity.__sub__", "Quantity.__rmul__", "Quantity.__rtruediv__"):
+        if qop not in prog.functions and not prog.method("Quantity", qop.split(".")[1]):
+            continue
+        qs_ = prog.method("Quantity", qop.split(".")[1])
+        qfi = prog.functions[qs_[0]] if qs_ else prog.func(qop)
+        other_p = qfi.params()[1] if len(qfi.params()) > 1 else "other"
+        hits = []
+        for t in ast.walk(qfi.node):
+            if isinstance(t, ast.Call) and isinstance(t.func, ast.Name) and t.func.id == "isinstance" and len(t.args) == 2 \
+                    and isinstance(t.args[0], ast.Name) and t.args[0].id == other_p:
+                kinds = t.args[1].elts if isinstance(t.args[1], ast.Tuple) else [t.args[1]]
+                for k in kinds:
+                    why = admits_measurement(ast.unparse(k))
+                    if why:
+                        hits.append((t, why))
+        rep.check("R14.7", f"{qop}[Measurement]", not hits,
+                  f"{qop} handles a Measurement operand itself (`{ast.unparse(hits[0][0]) if hits else ''}`: {hits[0][1] if hits else ''}) instead of returning "
+                  "NotImplemented: Python then never calls Measurement's reflected operator and quantity (op) measurement silently drops the uncertainty",
+                  qfi.where(hits[0][0] if hits else None))
     # R14.4
     init = prog.func("Measurement.__init__")
     stores = [n for n in ast.walk(init.node) if isinstance(n, ast.Assign)
